@@ -534,15 +534,19 @@ Definition digitVal (c : ascii) : N * N :=   (* (value, defined) as uint8_t *)
   else if in_range c 65 70 then (n - 65 + 10, 255)
   else (0, 0).
 
-Fixpoint parseHexLoop (bps : N) (num : list ascii) (cnt : N) (i : N) (s : bvs) : bvs :=
+(* insertNonStraddling asserts start % 64 + size <= 64 (HCL_ASSERT -> exception = None): an octal
+   digit whose 3 bits straddle a word border (digit 21 sits at bits 63..65) makes the parse fail *)
+Fixpoint parseHexLoop (bps : N) (num : list ascii) (cnt : N) (i : N) (s : bvs) : option bvs :=
   match num with
-  | [] => s
+  | [] => Some s
   | c :: r =>
     let vd := digitVal c in
     let dstIdx := cnt - 1 - i in
-    let s1 := insertNS s VALUE (dstIdx * bps) bps (fst vd) in
-    let s2 := insertNS s1 DEFINED (dstIdx * bps) bps (snd vd) in
-    parseHexLoop bps r cnt (i + 1) s2
+    if (dstIdx * bps) mod 64 + bps <=? 64 then
+      let s1 := insertNS s VALUE (dstIdx * bps) bps (fst vd) in
+      let s2 := insertNS s1 DEFINED (dstIdx * bps) bps (snd vd) in
+      parseHexLoop bps r cnt (i + 1) s2
+    else None
   end.
 
 Definition parseWidth (width : option N) : bvs :=
@@ -560,7 +564,7 @@ Definition parseHex (bps : N) (ret : bvs) (num : list ascii) : option bvs :=
   let chk := if bsize ret =? 0 then Some (resize ret (cnt * bps))
              else if cnt * bps <=? bsize ret then Some ret else None in
   match chk with
-  | Some r => Some (parseHexLoop bps num cnt 0 r)
+  | Some r => parseHexLoop bps num cnt 0 r
   | None => None
   end.
 
